@@ -669,7 +669,14 @@ func (p *mdPrinter) block(b Blk, cx blkCtx) []pline {
 		return out
 	case bQuote:
 		ind := p.leadIndent(indentOK)
-		tight := p.ch.pick("quote-marker-space", 2) == 1
+		qm := p.ch.pick("quote-marker-space", 3)
+		tight := qm == 1
+		// option 2: a TAB behind the marker, used only where the tab is exactly one column wide (the marker's optional space):
+		// the marker sits at an absolute column ≡ 2 (mod 4). Every column is then the same as with "> ".
+		tabW := 0
+		if qm == 2 && p.col >= 0 && (p.col+len(ind)+1)%4 == 3 {
+			tabW = 1
+		}
 		p.depth++
 		saveCol := p.col
 		if p.col >= 0 && !tight {
@@ -689,6 +696,8 @@ func (p *mdPrinter) block(b Blk, cx blkCtx) []pline {
 			switch {
 			case l.s == "":
 				out = append(out, pline{ind + ">", false})
+			case tabW > 0:
+				out = append(out, pline{ind + ">\t" + l.s, false})
 			case tight && l.s[0] != ' ' && l.s[0] != '\t':
 				out = append(out, pline{ind + ">" + l.s, false})
 			default:
